@@ -21,6 +21,8 @@
 #include <AIToolbox/POMDP/SparseModel.hpp>
 #include <AIToolbox/POMDP/Policies/Policy.hpp>
 #include <AIToolbox/POMDP/Utils.hpp>
+#include <AIToolbox/POMDP/Algorithms/IncrementalPruning.hpp>
+#include <AIToolbox/POMDP/Environments/TigerProblem.hpp>
 #include <cfloat>
 #include <limits>
 
@@ -451,13 +453,31 @@ static void witnessCopiedPolicy() {
     l.emit();
 }
 
-static const int kWitnesses = 3;
+// a policy as a real solver produces it (IncrementalPruning on the tiger problem, 4 steps) and the tiger model itself:
+// ties the model's validity predicate (horizon-0 list, link ranges, O links per entry) to solver output
+static void solverObjects(Rng & rng, const std::string & tier) {
+    auto model = PO::makeTigerProblem();
+    model.setDiscount(0.95);
+    PO::IncrementalPruning solver(4, 0.0);
+    auto [var, vf] = solver(model);
+    (void)var;
+    Shape sh{model.getS(), model.getA(), model.getO()};
+    PO::Policy x(sh.S, sh.A, sh.O, vf), d0(sh.S, sh.A, sh.O);
+    runObject("ppol", rng, sh, x, d0, tier);
+    PO::Model<M::Model> d1(sh.O, sh.S, sh.A);
+    runObject("pdd", rng, sh, model, d1, tier);
+    PO::SparseModel<M::SparseModel> sm(model), d2(sh.O, sh.S, sh.A);
+    runObject("pss", rng, sh, sm, d2, tier);
+}
+
+static const int kWitnesses = 4;
 long verif::verif_ncases(const std::string & tier) { return kWitnesses + (tier == "thorough" ? 1100 : 220); }
 
 void verif::verif_case(Rng & rng, long idx, const std::string & tier) {
     if (idx == 0) { witnessPolicyPrecision(rng, tier); return; }
     if (idx == 1) { witnessSparseCount(rng, tier); return; }
     if (idx == 2) { witnessCopiedPolicy(); return; }
+    if (idx == 3) { solverObjects(rng, tier); return; }
     long k = (idx - kWitnesses) % 11;
     int style = (int)(((idx - kWitnesses) / 11) % 2);       // alternate dyadic / ugly
     Shape sh{(size_t)rng.range(1, 5), (size_t)rng.range(1, 3), (size_t)rng.range(1, 3)};
